@@ -182,6 +182,17 @@ class EngineBase:
             st.assume(goal)
         return status
 
+    def safety(self, st, cond, oid, exc='IndexError'):
+        """a run-time check of the interpreter (subscript range, pop from empty ...): a safety obligation, unless the contract under
+        verification permits that exception (partial-correctness variant) - then the failing branch just ends and the path continues
+        under the condition"""
+        top = getattr(self, 'top_spec', None)
+        if top is not None and exc in getattr(top, 'may_raise', ()) and not getattr(top, 'keep_own_safety', False):
+            self.may_raise_points = getattr(self, 'may_raise_points', 0) + 1
+            st.assume(cond)
+            return 'permitted'
+        return self.check(st, cond, oid, 'safety')
+
     _sym_cache = {}
 
     def symbols(self, f):
